@@ -18,7 +18,9 @@ RULE = ('type-directed: targets as for C11 (dict/OrderedDict/dict subclass/list/
         'derived by walking the target (length 1-5 quick / 1-8 thorough) and ends in an existing element '
         '(success), an absent key / out-of-range index / absent attribute (missing final), or stops existing '
         'earlier (missing parent); spelled as dotted text, Path(...), T[..]/T.attr, mixtures, S-rooted, with '
-        '0-2 `*` wildcards; ignore_missing in {False, True}; a one-edit mutation stream plants a bad segment '
+        '0-2 `*` wildcards; ignore_missing in {False, True}; keys / attributes also named like op characters '
+        'and wildcards (x, X, P, *, **); 12% of the cases apply the SAME Delete object first to 1-2 other '
+        'targets (histories); a one-edit mutation stream plants a bad segment '
         '/ wrong access kind at every position. non-trivial = path length >= 2 or anything but a plain '
         'success; distinct = distinct (heap, target, scope, root, spelling, ignore_missing)')
 TRUSTED = ['deletion primitives of CPython and the fault classes of harness/props/mutobjs.py as modelled in '
@@ -64,6 +66,7 @@ def one_case(rng, tier, classes, cflags, force=None):
     return {'classes': classes, 'cflags': cflags, 'heap': heap, 'target': root, 'scope': scope,
             'root': 'S' if sroot else 'T', 'spelling': sp, 'style': style,
             'ignore_missing': force.get('ignore', rng.random() < 0.4),
+            'warmup': rng.choice([1, 2]) if rng.random() < force.get('warm_p', 0.12) else 0,
             'api': rng.choice(['delete', 'Delete'])}
 
 
@@ -120,10 +123,12 @@ def run_impl(case):
     default_keys = set(default_map)
     try:
         path = M.build_path(case, dv)
-        if case.get('api') == 'delete' and not kwargs:
+        if case.get('api') == 'delete' and not kwargs and not case.get('warmup'):
             res = glom.delete(target, path, ignore_missing=case['ignore_missing'])
         else:
-            res = glom.glom(target, Delete(path, ignore_missing=case['ignore_missing']), **kwargs)
+            spec = Delete(path, ignore_missing=case['ignore_missing'])
+            M.warm_up(case, spec)            # the same spec object, used on other targets before
+            res = glom.glom(target, spec, **kwargs)
     except Exception as e:
         r = M.observe_exc(e)
     else:
@@ -136,7 +141,7 @@ def run_impl(case):
 
 
 def key(case):
-    return {k: case.get(k) for k in ('heap', 'target', 'scope', 'root', 'spelling', 'style', 'ignore_missing')}
+    return {k: case.get(k) for k in ('heap', 'target', 'scope', 'root', 'spelling', 'style', 'ignore_missing', 'warmup')}
 
 
 def nontrivial(case, verdict):
